@@ -435,7 +435,10 @@ def i_MOVSW(i, fmap):
 
 
 def i_MOVSD(i, fmap):
-    _movs_(i, fmap, 4)
+    if i.misc["opdsz"] == 128:
+        sse_MOVSD(i, fmap)
+    else:
+        _movs_(i, fmap, 4)
 
 
 def i_MOVSQ(i, fmap):
